@@ -8,6 +8,7 @@ import ProfiVerif.Driver.Apps
 import ProfiVerif.Driver.Prm
 import ProfiVerif.Driver.Station
 import ProfiVerif.Driver.StationOracle
+import ProfiVerif.Driver.Net
 open PV PV.Driver
 
 /-
@@ -28,6 +29,7 @@ def main (args : List String) : IO UInt32 := do
   | ["oracle", "C12st", o, i] => oracleLoop (oracleStation "C12") {} o i
   | ["oracle", "C13st", o, i] => oracleLoop (oracleStation "C13") {} o i
   | ["oracle", "C15st", o, i] => oracleLoop (oracleStation "C15") {} o i
+  | ["model", "net"] => engineLoop stepNet none inp out; return 0
   | ["model", "station"] => engineLoop stepStation none inp out; return 0
   | ["model", "prm"] => engineLoop stepPrm none inp out; return 0
   | ["oracle", "C20", o, i] => oracleLoop oracleC20 (none, 0) o i
